@@ -19,6 +19,7 @@ REG = {
     "C20": ("vf.checks.c20", "C20"),
     "C18": ("vf.checks.c18", "C18"),
     "C11": ("vf.checks.c11", "C11"),
+    "C10": ("vf.checks.c10", "C10"),
     "C12": ("vf.checks.c12", "C12"),
     "C05": ("vf.checks.rates_props", "C05"), "C06": ("vf.checks.rates_props", "C06"),
 }
